@@ -14,7 +14,7 @@ ID = "C05"
 LEVEL = "model_checking"
 MIN_OUTCOMES = 4
 MANIFEST = {
-    'text': "Explicit-state exploration of the bump transition system on the real `test` command body: for every pattern of the stated grammar subset and every seed state, ALL flag combinations x tag choices x date kinds are executed and the announced version (or the refusal) must equal what the reference model of the README rules computes; on the README patterns the same events also run through `update --dry` (argv parsing, config loading, the update command's own wiring of the flags) and must announce the same version, dated events under three non-UTC process time zones in turn; successors are expanded (depth 2) on a core subset so non-initial states are covered.",
+    'text': "Explicit-state exploration of the bump transition system on the real `test` command body: for every pattern of the stated grammar subset and every seed state, ALL flag combinations x tag choices x date kinds are executed and the announced version (or the refusal) must equal what the reference model of the README rules computes; on the README patterns the same events also run through `update --dry` (argv parsing, config loading, the update command's own wiring of the flags) and must announce the same version, dated events under three non-UTC process time zones in turn; successors are expanded (depth 2) on a core subset so non-initial states are covered. Because the generated grammar always ends with its tag block, nine further patterns put counters, PATCH, MINOR.PATCH and BUILD to the RIGHT of TAG/PYTAG (a tag may change to a name that sorts before the old one), in both tiers.",
     'note': 'reference model mc/ref/model.py transcribed from README; values outside the alphabets and patterns outside the grammar subset are not covered; `--tag final --tag-num` is treated as unspecified',
     'technique': 'explicit-state model checking of the implementation against a reference model (all events from every explored state)',
 }
@@ -28,10 +28,27 @@ ASSUMPTIONS = [
 ]
 
 
+# the generated grammar always ends with the tag block, so the only part ever to the right of TAG/PYTAG there is NUM: these
+# put counters, PATCH and a build number to the right of a tag (a tag may change to one that sorts BEFORE it: rc -> final, dev -> beta)
+RIGHT_OF_TAG = [
+    "MAJOR.MINOR.PATCH[-TAG.INC0]", "MAJOR.MINOR[PYTAG.INC1]", "YYYY.MM[-TAG.INC0]", "MAJOR.MINOR.PATCH-TAG.INC1",
+    "vMAJOR.MINOR-TAG.PATCH", "YYYY.MM-TAG.BUILD", "MAJOR-TAG.MINOR.PATCH", "YYYY0M[-TAG.PATCH]", "MAJOR.MINOR[.PATCH][-TAG[.INC0]]",
+]
+
+
+def right_of_tag():
+    out = []
+    for text in RIGHT_OF_TAG:
+        tree = M.parse_pattern(text)
+        assert grammar.well_formed(tree) is None, (text, grammar.well_formed(tree))
+        out.append(grammar.Pat(tree))
+    return out
+
+
 def pattern_set(tier, seed):
     if tier == "thorough":
         pats, flt = grammar.generate("star")
-        return pats, flt
+        return pats + [p for p in right_of_tag() if p.text not in {q.text for q in pats}], flt
     core, flt = grammar.generate("core", prefixes=("",))
     readme = core[: len(grammar.README_PATTERNS)]
     rest = core[len(grammar.README_PATTERNS) :]
@@ -39,6 +56,7 @@ def pattern_set(tier, seed):
     extra = [p for p in star if p.text not in {q.text for q in core}]
     nsl = 80
     pats = readme + rest[::18] + extra[seed % nsl :: nsl]
+    pats += [p for p in right_of_tag() if p.text not in {q.text for q in pats}]
     return pats, flt
 
 
